@@ -418,7 +418,12 @@ def precision_in_tree(ctx, rng, n):
     n = ctx.boost(n) if hasattr(ctx, "boost") else n
     specs = []
     for _ in range(n):
-        spec = R2.rand_spec(rng, gsc={"kind": "SingularProblemPrecisionReached", "precision": float(rng.choice([0.05, 0.5, 5.0, 50.0]))}, objective=str(rng.choice(["sphere", "four", "plateau0"])), maximize=False, max_steps=6, cutoff=None)
+        if rng.random() < 0.3:
+            # an objective with NaN holes: NaN is never within the precision, whatever comparison is used
+            spec = R2.rand_spec(rng, gsc={"kind": "SingularProblemPrecisionReached", "precision": float(rng.choice([0.05, 0.5, 5.0]))}, objective="holes", nlev=int(rng.choice([1, 2])),
+                                engines={l: R2.NAN_SAFE_ENGINES for l in range(4)}, maximize=False, max_steps=6, cutoff=None)
+        else:
+            spec = R2.rand_spec(rng, gsc={"kind": "SingularProblemPrecisionReached", "precision": float(rng.choice([0.05, 0.5, 5.0, 50.0]))}, objective=str(rng.choice(["sphere", "four", "plateau0"])), maximize=False, max_steps=6, cutoff=None)
         specs.append(spec)
     lines, metas = [], []
     for spec, r in zip(specs, pmap(_prec_worker, specs, chunksize=2)):
@@ -435,7 +440,7 @@ def precision_in_tree(ctx, rng, n):
         for m in r["found"]:
             sl.violations.append({"signature": "C16/precision-flag-or-ETA-not-first-hit", "detail": m, "replay": {"spec": spec}})
         vs = r["answers"]
-        if vs and len(vs) < 4000:
+        if vs and len(vs) < 4000 and all(v == v for v in vs):
             lines.append(f"wrap 0 1 P 0 {fr(r['opt'])} {fr(r['eps'])} - 0 {len(vs)} " + " ".join(fit(v) for v in vs))
             metas.append((spec, r["final"]))
     got = run_driver(lines)
